@@ -52,6 +52,13 @@ def replay(h, res, pid, kani_cmd, sh, verif, logs, env):
                never_completes=never_completes, unreachable_hit=unreachable_hit, also=h.get("also", []),
                tests=tests, kani_flags=h.get("kani_flags", ""), guard=h.get("guard", True))
     path = base + ".json"
+    if not tests and not all_tests:
+        # a harness without nondeterministic inputs: Kani has no values to report;
+        # the native replay is the harness itself
+        name = h["harness"].split("::")[-1]
+        tests = ["#[test]\nfn kani_concrete_playback_%s_plain() {\n    let concrete_vals: Vec<Vec<u8>> = vec![];\n    kani::concrete_playback_run(concrete_vals, %s);\n}\n" % (name, name)]
+        rec["tests"] = tests
+        rec["note"] = "deterministic harness: replayed natively as it is"
     if not tests:
         rec["note"] = "Kani produced no concrete playback test"
         json.dump(rec, open(path, "w"), indent=1)
@@ -88,6 +95,10 @@ def run_tests(rec, verif, sh, logs):
     # the generated test refers to the harness by its bare name
     open(src, "w").write(body)
     reproduced = False
+    # "waits for another operation": natively the stubs of the Kani run are not
+    # applied, the code under test really spins - a run that does not come back is
+    # the reproduction
+    waits = any(("waiting for another operation" in f["desc"]) or ("waits for" in f["desc"]) for f in rec["failed"])
     names = re.findall(r"fn (kani_concrete_playback_\w+)\(", inner)
     for profile in ("", "--release"):
         for i, name in enumerate(names):
@@ -95,7 +106,7 @@ def run_tests(rec, verif, sh, logs):
             # one test per process: the shim state is process-global
             cmd = ("cargo kani playback -Z concrete-playback %s -- %s --nocapture --test-threads=1"
                    % (profile, name))
-            sh(cmd, log, 1200, scratch, rec.get("guard", True))
+            rc_to = sh(cmd, log, 420 if waits else 1200, scratch, rec.get("guard", True))
             out = open(log, errors="replace").read()
             m = re.search(r"panicked at [^\n]*\n([^\n]*)", out)
             msg = m.group(1).lstrip('"') if m else ""
@@ -107,6 +118,11 @@ def run_tests(rec, verif, sh, logs):
             if not hit and rec.get("unreachable_hit") and "test result: ok" in out:
                 # the run completed natively although it must have been refused
                 hit = True
+            # (libtest's own "running 1 test" line is block-buffered and lost when the
+            # hanging process is killed; cargo's "Running unittests" line on stderr is not)
+            if not hit and waits and rc_to[1] and re.search(r"^\s*Running ", out, re.M) and "test result" not in out:
+                hit = True
+                msg = "(the native run did not return within the time limit)"
             if hit:
                 reproduced = True
                 rec.setdefault("native", []).append(dict(test=name, profile=profile or "dev", panic=msg))
